@@ -591,7 +591,7 @@ class PreferenceAddition:
                             + var_part
                             + var_vote[i+offset+1:]
                         )
-                        offset += len(var_part)
+                        offset += len(var_part) - 1
                     new_votes[var_vote] = (
                         new_votes.get(var_vote, 0) + n_variant_votes
                     )
